@@ -31,7 +31,7 @@ AS_CODED = {
     "Fc": True,   # DocChanged ignores recent_sequences at/above unused_sequences[0]          (change_cache.go, RecentCutAtUnused = TRUE)
     "Fb": True,   # lowSequence = 0 when sequence 1 of a new database is the oldest skipped   (changes.go; only with Base = 0)
 }
-OWNER = {"ResumeSafe": "C08", "NoLostChange": "C08", "FeedAnnouncesFinal": "C05", "FeedSound": "C05", "RowsAreCommitted": "C05",
+OWNER = {"ResumeSafe": "C08", "NoLostChange": "C08", "ContDelivers": "C01", "FeedAnnouncesFinal": "C05", "FeedSound": "C05", "RowsAreCommitted": "C05",
          "OrderedPerResponse": "C01", "LedgerAccounted": "C07", "QuietAccounted": "C07", "NoStall": "C07",
          "StormNoLostChange": "C08", "StormContDelivers": "C01", "StormFeedAnnouncesFinal": "C05", "StormRowsAreCommitted": "C05",
          "StormOrdered": "C01", "StormLedger": "C07", "StormNoStall": "C07", "StormResumeSafe": "C08", "AbandonNoStall": "C07"}
@@ -106,7 +106,8 @@ def model_jobs(ctx):
         jobs["conf"] = lambda: mc(ctx, cfg, "conf", dict(ac, PL_CLIENTS="os", PL_CONFLICTS="1"), 6000)
     if AS_CODED["Fa"]:
         # needs four reservations: the thorough constants
-        jobs["ct-dev"] = lambda: mc(ctx, "MC_Pipeline_thorough.cfg", "ct-dev", dict(ac, PL_CLIENTS="ct", PL_RECONNECT="1"), 6000, expect="ResumeSafe", count=False)
+        jobs["ct-dev"] = lambda: mc(ctx, "MC_Pipeline_thorough.cfg", "ct-dev", dict(ac, PL_CLIENTS="ct", PL_RECONNECT="1", PL_DUP="0", PL_FAIL="0"), 6000,
+                                    expect="ResumeSafe", count=False)
     else:
         jobs["ct"] = lambda: mc(ctx, cfg, "ct", dict(ac, PL_CLIENTS="ct", PL_RECONNECT="1"), 6000)
     if AS_CODED["Fb"]:
@@ -158,20 +159,16 @@ def directed():
     c = lambda **kw: dict({"mn": 0, "conflicts": False, "base": 1, "clients": ["os", "ct"], "timed": True}, **kw)
     two = [S("Reserve", "w1", "a"), S("Cas", "w1", "a"), S("Reserve", "w1", "b"), S("Cas", "w1", "b")]          # a@2, b@3
     fams = []
-    # F-a: b@3 seen with "1::3", a@2 arrives late while the feed is down / before it iterates, reconnect from "1::3" ... (needs a third, lower, skipped one)
-    fa = [S("Reserve", "w1", "a"), S("Reserve", "w2", "b"), S("Reserve", "w3", "b"),                     # w1: a@2, w2: b@3 (will die), w3: b@4
-          S("Cas", "w1", "a"), S("Die", "w2", "b"), S("Cas", "w3", "b"),
-          S("Reserve", "w1", "b"), S("Cas", "w1", "b")]                                                  # ... b@5 on top of b@4
-    fa = [S("Reserve", "w1", "b"), S("Die", "w1", "b"),                                                  # 2 is reserved and never arrives
-          S("Reserve", "w2", "a"), S("Cas", "w2", "a"),                                                  # a@3
-          S("Reserve", "w3", "b"), S("Cas", "w3", "b"),                                                  # b@4
-          S("Deliver", d="b", seq=4), S("Connect"),                                                      # skipped {2,3}; the feed sends b@4 as "1::4"
-          S("Disconnect"), S("Deliver", d="a", seq=3),                                                   # a@3 arrives late while the client is away (2 still skipped)
-          S("Connect"),                                                                                  # resumed from "1::4": low still 1
-          S("Reserve", "w3", "b"), S("Cas", "w3", "b"), S("Deliver", d="b", seq=5), S("Iter")]           # b@5 -> token "1::5"... a@3 never sent
+    # F-a: 2 is reserved and never arrives, a@3 and b@4 are committed, b@4 is delivered first (2,3 skipped)
+    writes = [S("Reserve", "w1", "b"), S("Die", "w1", "b"), S("Reserve", "w2", "a"), S("Cas", "w2", "a"), S("Reserve", "w3", "b"), S("Cas", "w3", "b"),
+              S("Deliver", d="b", seq=4)]
+    fa = writes + [S("Connect"),                                          # the feed sends b@4 as "1::4"
+                   S("Disconnect"), S("Deliver", d="a", seq=3),           # a@3 arrives late while the client is away; 2 is still skipped
+                   S("Connect"),                                          # resumed from "1::4": the low part still is the low sequence
+                   S("Reserve", "w3", "b"), S("Cas", "w3", "b"), S("Deliver", d="b", seq=5), S("Iter")]   # b@5 -> "1::5"; a@3 is never sent
     fams.append({"cfg": c(clients=["ct"]), "fam": "dir-Fa", "steps": fa})
-    fams.append({"cfg": c(clients=["os"]), "fam": "dir-Fa-oneshot", "steps": [s for s in fa if s["a"] not in ("Connect", "Disconnect", "Iter")][:8]
-                 + [S("Deliver", d="b", seq=4), S("Request"), S("Deliver", d="a", seq=3), S("Request")]})
+    # the same history seen by the one-shot resume loop (not affected: it is re-sent a@3 once the low sequence moves)
+    fams.append({"cfg": c(clients=["os"]), "fam": "dir-Fa-oneshot", "steps": writes + [S("Request"), S("Deliver", d="a", seq=3), S("Request")]})
     # F-b: brand-new database, sequence 1 skipped
     fams.append({"cfg": c(base=0, clients=["os"]), "fam": "dir-Fb", "steps": two + [S("Deliver", d="b", seq=2), S("Request"), S("Deliver", d="a", seq=1), S("Request")]})
     # F-c: CAS-retried write, competitor's mutation de-duplicated
@@ -364,7 +361,7 @@ def judge_replay(ctx, rep, behs, rows):
     # non-vacuity counters, measured on the real trace
     stats = {"behaviours": len(behs), "trace_lines": len(rows), "lines_with_skipped": 0, "late_arrivals": 0, "abandon_steps": 0, "compound_tokens": 0,
              "cas_retries": 0, "conflicts_409": 0, "failed_writes": 0, "dead_reservations": 0, "coalesced": 0, "redelivered": 0, "responses": 0, "rows": 0,
-             "continuous_iterations": 0, "truncated": 0}
+             "continuous_iterations": 0, "left_scripted_path": 0}
     nontriv = set()
     for s in segs:
         prev_late = 0
@@ -378,6 +375,7 @@ def judge_replay(ctx, rep, behs, rows):
                 nontriv.add(s[0])
             a = r["a"]
             stats["abandon_steps"] += a == "Abandon"
+            stats["left_scripted_path"] += a == "Quiesce" and r.get("phase") == 1 and r.get("done", 0) < r.get("of", 0)
             stats["cas_retries"] += a == "Cas" and r.get("kind", "").startswith("retry")
             stats["conflicts_409"] += a == "Cas" and r.get("kind") == "conflict"
             stats["failed_writes"] += a == "Fail"
@@ -447,7 +445,7 @@ def trim_trace(lines):
 # ------------------------------------------------------------------------------------------------------------
 def judge_free(ctx, rep, path, cenv, first=True):
     rows = read_ndjson(path)
-    vp = validate(ctx, SPEC, "Trace_Pipeline", "Trace_Pipeline_P.cfg", path, timeout=1500, env=dict(JOPT, **variant_env(False), PL_FREE="1"),
+    vp = validate(ctx, SPEC, "Trace_Pipeline", "Trace_Pipeline_P.cfg", path, timeout=1500, env=dict(JOPT, **variant_env(False)),
                   tag="free" + ("" if first else "2"))
     if vp.inv:
         raise Inconclusive("pass P (free-running): TLC stopped on %s\n%s" % (vp.inv, vp.out[-1200:]))
@@ -481,6 +479,13 @@ def stage_free(ctx, rep, cenv):
     rows, fails = judge_free(ctx, rep, tr, cenv)
     ctx.cov["pipeline_free_running"] = free_stats(ctx, rows)
     ctx.cov["evaluations"] += len(rows)
+    for n in [x for x in fails if x in DEV]:     # a named deviation's blind spot was hit (known class)
+        owner, key, what = DEV[n]
+        r = rows[fails[n][0] - 1]
+        rep.report(owner, key, "%s - observed in a free-running run (round %s, seed %s)" % (what, r.get("round"), r.get("seed")),
+                   {"predicate": n, "run": summarize_free(r)})
+        ctx.cov.setdefault("pipeline_deviation_hits", {})["storm:" + n] = len(fails[n])
+    fails = {n: l for n, l in fails.items() if n not in DEV}
     facts = {n: l for n, l in fails.items() if n in ("StormRowsAreCommitted", "StormOrdered", "StormLedger", "StormResumeSafe")}
     timed = {n: l for n, l in fails.items() if n not in facts}
     for n, lines in sorted(facts.items()):           # facts about recorded output / the ledger: no second run needed
